@@ -488,6 +488,16 @@ def run_history(descs, emit):
         rec["alias"] = sorted(set(alias)) if desc["fn"] != "new" else []
         for lab, a in outs:
             register("call%d.%s" % (rec["i"], lab), a, "value" if lab.find("_nodes") < 0 else "shape")
+        # the CALLER's ordinary use of a returned array: modify it in place (normalise a tangent, scale parameters ...).  Done
+        # for results that nothing later in the history refers to and that do not share memory with an argument or a known
+        # array of a shape; if the library handed out one of its own buffers or caches, later calls see the scribble and differ
+        # from the same call in a fresh process
+        if raised is None and desc["fn"] != "new" and not desc.get("keep") and not rec["alias"]:
+            for lab, a in outs:
+                if lab.find("_nodes") < 0 and isinstance(a, np.ndarray) and a.flags.writeable and a.dtype.kind == "f" and a.size \
+                        and id(a) in by_id:
+                    a[...] = a * -0.75 + 13.0
+                    by_id[id(a)][2] = ahash(a)
         # pool bookkeeping
         if desc["fn"] == "new" and raised is None:
             pool[desc["id"]] = (result, desc["args"][0])
@@ -522,7 +532,10 @@ def run_single(resolved):
     return norm(out)
 
 
-LAYOUTS = ("F", "C", "list", "view", "viewF", "rev", "copyFalse", "from_nodes", "int", "intF", "intlist", "i4", "f4")
+LAYOUTS = ("F", "C", "list", "view", "viewF", "rev", "copyFalse", "from_nodes", "int", "intF", "intlist", "i4", "f4",
+           # copy=False together with every container / dtype / memory order (the constructor may then keep the caller's array:
+           # whatever it keeps must still be usable by every method)
+           "copyFalse:C", "copyFalse:list", "copyFalse:view", "copyFalse:int", "copyFalse:intlist", "copyFalse:i4", "copyFalse:f4")
 
 
 def relayout(rec, lay):
@@ -532,6 +545,9 @@ def relayout(rec, lay):
     a = rec["nodes"]["a"]
     out = dict(rec)
     out["copy"] = True
+    if lay.startswith("copyFalse:"):
+        lay = lay.split(":", 1)[1]
+        out["copy"] = False
     if lay == "copyFalse":
         out["nodes"] = {"a": a, "layout": "F"}
         out["copy"] = False
